@@ -719,7 +719,8 @@ func TestC20LockDiscipline(t *testing.T) {
 				var maps []string
 				for _, fld := range st.Fields.List {
 					if len(fld.Names) == 0 {
-						if se, ok := fld.Type.(*ast.SelectorExpr); ok && se.Sel.Name == "Mutex" {
+						// (a sync.RWMutex also marks the struct; its read path then shows up as "not guarded by Lock()")
+						if se, ok := fld.Type.(*ast.SelectorExpr); ok && (se.Sel.Name == "Mutex" || se.Sel.Name == "RWMutex") {
 							hasMutex = true
 						}
 					}
@@ -740,7 +741,10 @@ func TestC20LockDiscipline(t *testing.T) {
 		}
 	}
 	if structName == "" || len(guardedFields) == 0 {
-		t.Fatalf("no mutex-guarded struct with a map field found in %s", dir)
+		// no mutex-guarded struct with a map field: report an empty scan (the Coq side then misses the two methods)
+		out.Emit(Case{Coq: "LockCase []", Kind: "lock-scan", Nontrivial: false, Key: "LockCase []",
+			Human: map[string]interface{}{"struct": "", "note": "no mutex-guarded struct with a map field found in " + dir}})
+		return
 	}
 	mentions := func(n ast.Node) bool {
 		found := false
@@ -809,4 +813,71 @@ func TestC20LockDiscipline(t *testing.T) {
 	coq := "LockCase " + clist(facts)
 	out.Emit(Case{Coq: coq, Kind: "lock-scan", Nontrivial: len(facts) >= 2, Key: coq,
 		Human: map[string]interface{}{"struct": structName, "functions_touching_the_map": names}})
+}
+
+
+// TestC20ParallelReads: after a batch of updates, many goroutines read the SAME markets at the same time (no update
+// runs meanwhile, so every read has one correct answer: the sequential one).  Emitted as a SeqCase whose reads are the
+// concurrent ones: state that readers share (a reused buffer, a cached result) shows up as a wrong median.
+func TestC20ParallelReads(t *testing.T) {
+	out := newOut(t, "c20_parreads")
+	defer out.Close()
+	r := rand.New(rand.NewSource(seed()*17 + 3))
+	n := count(40, 1500)
+	for i := 0; i < n; i++ {
+		g := &c20seqGen{r: r, maxAge: pick(r, int64(2), 1000, 30_000_000_000)}
+		mte := pricefeed.NewMarketToExchangePrices(time.Duration(g.maxAge))
+		var ops []string
+		nu := 2 + r.Intn(4)
+		for k := 0; k < nu; k++ {
+			u := g.update()
+			mte.UpdatePrices(c20realUpdates(u))
+			ops = append(ops, "SUpdate "+c20coqUpdates(u))
+		}
+		type rd struct {
+			ps    []c20mp
+			readT *big.Int
+			res   map[uint32]uint64
+		}
+		G := 4 + r.Intn(5)
+		per := 6 + r.Intn(10)
+		reads := make([][]rd, G)
+		for gi := 0; gi < G; gi++ {
+			for k := 0; k < per; k++ {
+				ps, rt := g.read()
+				reads[gi] = append(reads[gi], rd{ps: ps, readT: rt})
+			}
+		}
+		var wg sync.WaitGroup
+		start := make(chan struct{})
+		for gi := 0; gi < G; gi++ {
+			wg.Add(1)
+			go func(gi int) {
+				defer wg.Done()
+				<-start
+				for k := range reads[gi] {
+					reads[gi][k].res = mte.GetValidMedianPrices(c20realParams(reads[gi][k].ps), c20time(reads[gi][k].readT))
+					if k%3 == 0 {
+						runtime.Gosched()
+					}
+				}
+			}(gi)
+		}
+		close(start)
+		wg.Wait()
+		served := 0
+		for gi := range reads {
+			for _, x := range reads[gi] {
+				ops = append(ops, fmt.Sprintf("SRead %s %s %s", c20coqParams(x.ps), cz(x.readT), c20coqResult(x.res)))
+				served += len(x.res)
+			}
+		}
+		kind := "served=0"
+		if served > 0 {
+			kind = "served>0"
+		}
+		coq := fmt.Sprintf("SeqCase %d %s", g.maxAge, clist(ops))
+		out.Emit(Case{Coq: coq, Kind: kind, Nontrivial: served > 0, Key: fmt.Sprint(i),
+			Human: map[string]interface{}{"maxAge_ns": g.maxAge, "updates": nu, "goroutines": G, "reads_per_goroutine": per, "prices_served": served}})
+	}
 }
